@@ -155,11 +155,11 @@ func c16Inconsistent(it c16Items) (bad []string) {
 		it.IVP.Point().Round() != it.AVP.Point().Round() ||
 		it.IVP.Point().Stage() != base.StageINIT || it.AVP.Point().Stage() != base.StageACCEPT:
 		bad = append(bad, "voteproof-point")
-	case c16RoundNotOfProposal(it):
-		// the manifest names its height and, through the proposal it commits to, its round: the block's point is the point of
-		// the proposal whose fact hash is in the manifest
-		bad = append(bad, "voteproof-point")
 	}
+
+	// NOT judged: the round of the voteproofs against the round of the proposal the manifest commits to. A base.Manifest
+	// has a height and a proposal hash, no round: "the manifest's point" is read as its height plus INIT and ACCEPT at one
+	// and the same point. Such blocks are generated and counted as a class (see c16RoundNotOfProposal), not reported.
 
 	// ... with an ACCEPT majority for the manifest hash
 	if it.AVP != nil {
@@ -173,22 +173,13 @@ func c16Inconsistent(it c16Items) (bad []string) {
 }
 
 // c16RoundNotOfProposal: the served proposal is the one the manifest commits to (fact hash), and a voteproof is of
-// another point (height, round) than that proposal.
+// another point (height, round) than that proposal. Used for class counting only, never for the verdict.
 func c16RoundNotOfProposal(it c16Items) bool {
 	if it.Proposal == nil || it.IVP == nil || it.AVP == nil || !it.Proposal.Fact().Hash().Equal(it.Manifest.Proposal()) {
 		return false
 	}
 
 	return !it.IVP.Point().Point.Equal(it.Proposal.Point()) || !it.AVP.Point().Point.Equal(it.Proposal.Point())
-}
-
-// c16OnlyRoundVsProposal: the only broken clause is the voteproof point, and the two voteproofs agree with each other
-// (INIT and ACCEPT of one point of the manifest's height): what is broken is the round against the manifest's proposal.
-func c16OnlyRoundVsProposal(it c16Items, bad []string) bool {
-	return len(bad) == 1 && bad[0] == "voteproof-point" && it.IVP != nil && it.AVP != nil &&
-		it.IVP.Point().Height() == it.Manifest.Height() && it.IVP.Point().Point.Equal(it.AVP.Point().Point) &&
-		it.IVP.Point().Stage() == base.StageINIT && it.AVP.Point().Stage() == base.StageACCEPT &&
-		c16RoundNotOfProposal(it)
 }
 
 // c16OtherRound draws a round of the same height other than r (a later round, or an earlier one if there is one).
@@ -856,13 +847,13 @@ func TestC16(t *testing.T) {
 		"one node of the states / operations tree (leaf, inner node or root) re-keyed to a foreign state of this height / an operation of another block that replaces the item at that node, with the node's stored hash kept " +
 		"(all other nodes and the root untouched, root still the manifest's), the node alone re-hashed or the node and its ancestors re-hashed; the same re-keying with the items left as they are; " +
 		"the stored hash of one tree node replaced with or without re-hashing its ancestors; proposal of another block or another proposal for the same point, voteproofs of another block, " +
-		"ACCEPT voteproof at the same point whose majority is another block hash, manifest re-pointed to another states root / operations root / proposal, item file swapped after signing}; " +
+		"ACCEPT voteproof at the same point whose majority is another block hash, valid INIT / ACCEPT / INIT+ACCEPT voteproofs of the block's height but of another round than the block's (facts otherwise genuine, signed by the suffrage or by the attacker's nodes), manifest re-pointed to another states root / operations root / proposal, item file swapped after signing}; " +
 		"imported into a fresh node with the real BlockImporter (WriteMap, WriteItem per item, Save, merge). non-trivial: tampered and every item checksum matches the re-signed map; " +
 		"distinct by (height, other height, kind, parameters, signer)")
 	r.Floor(int64(r.N(120, 3000)))
 	r.Assume("stored := NewBlockImporter + WriteItem for every item of the map + Save + deferred merge all return nil (the per-block part of ImportBlocks)",
 		"oracle from the statement, independent of the validator: proposal fact hash and height equal the manifest's; operation fact hashes equal the keys of the served operations tree and its reference root equals the manifest's; "+
-			"same for states (hash keys, block height); every node of a served tree carries the reference hash of its key and its children's reference hashes (recomputed from the keys, not with Tree.IsValid); both voteproofs at the manifest's height, same round, INIT/ACCEPT; ACCEPT result is a majority whose new-block hash is the manifest hash",
+			"same for states (hash keys, block height); every node of a served tree carries the reference hash of its key and its children's reference hashes (recomputed from the keys, not with Tree.IsValid); both voteproofs at the manifest's height, same round, INIT/ACCEPT (a manifest has a height and no round: whether that common round is the round of the committed proposal is not judged, blocks with INIT+ACCEPT of another round are generated and only counted); ACCEPT result is a majority whose new-block hash is the manifest hash",
 		"differential part: a stored block must pass isaacblock.IsValidBlockFromLocalFS on the destination's files",
 		"the validator is judged by the same clauses, independent of the importer: IsValidBlockFromLocalFS run on the served block files (and on the stored ones) must not accept files the clause-by-clause oracle calls inconsistent; "+
 			"a validator that rejects consistent served files is not judged",
@@ -997,8 +988,6 @@ func TestC16(t *testing.T) {
 				switch {
 				case tm.Swapped:
 					sig = "item-not-matching-map-checksum-stored"
-				case c16OnlyRoundVsProposal(it, bad):
-					sig = "voteproofs-round-not-bound-to-proposal"
 				case len(bad) == 1 && bad[0] == "accept-majority":
 					sig = "accept-majority-not-bound-to-manifest"
 				case len(bad) == 1 && bad[0] == "voteproof-point", len(bad) == 2 && bad[0] == "voteproof-point" && bad[1] == "accept-majority":
@@ -1025,10 +1014,6 @@ func TestC16(t *testing.T) {
 			switch {
 			case c16OnlyEmptyAgainstRoot(it, bad):
 				sig = "validator-accepts-empty-tree-for-manifest-root"
-			case c16OnlyRoundVsProposal(it, bad):
-				// INIT and ACCEPT agree with each other and with the manifest's height, but not with the round of the
-				// proposal the manifest commits to: the same root cause for importer and validator
-				sig = "voteproofs-round-not-bound-to-proposal"
 			case c16OnlyTreeNotHashingToRoot(it, bad):
 				// the tree carries the manifest's root in its root node, but a node key or node hash below is not what
 				// that root commits to
@@ -1064,6 +1049,16 @@ func TestC16(t *testing.T) {
 
 		if tm.Node != "" {
 			classes = append(classes, "tree-node:"+tm.Node)
+		}
+
+		if len(bad) < 1 && c16RoundNotOfProposal(it) {
+			// INIT and ACCEPT agree with each other and with the manifest's height, but not with the round of the proposal
+			// the manifest commits to: outside the judged reading of "the manifest's point"
+			if stored {
+				classes = append(classes, "voteproofs-other-round-stored(not-judged)")
+			} else {
+				classes = append(classes, "voteproofs-other-round-rejected(not-judged)")
+			}
 		}
 
 		if len(bad) > 0 {
